@@ -1,6 +1,6 @@
 ------------------------------ MODULE Gen_C18 ------------------------------
 (* One shared value per structure type and shape; N in {2,3,4,8} goroutines each calling every read-only method. *)
-EXTENDS Enc, Ref, GenUtil, TLC, Json
+EXTENDS Enc, J_C05, GenUtil, Json
 CONSTANTS Tier, Seed, OutFile
 Thorough == Tier = "thorough"
 Reps == IF Thorough THEN 200 ELSE 20
@@ -32,7 +32,28 @@ Shapes ==
      << "ReadEncryptedLeaseSet", EncELS(11, T4, << 2, 88 >>, 1, EncOffline(T4, 7, 11, 2), 100, Fill(100, 2), 7, 3), << >> >>,
      << "ReadOfflineSignature", EncOffline(T4, 7, 7, 2), [typ |-> 7] >>, << "ReadSignature", Fill(64, 1), [typ |-> 7] >>,
      << "ReadLease", Fill(44, 1), << >> >>, << "ReadLease2", Fill(40, 1), << >> >> >>
-Vecs == Cross2(Shapes \o ShapesU, Ns, LAMBDA sh, n : [op |-> "Concurrent", fn |-> sh[1], in |-> sh[2], n |-> n, reps |-> Reps, cls |-> "n" \o ToString(n)] @@ sh[3])
+\* an SSU2 address with introducer options (the introducer helpers and String() walk them), and one without a host
+AddrSSU == EncRouterAddress(8, Zeros(8), << 83, 83, 85, 50 >>, << << << 99, 97, 112, 115 >>, << 66, 67, 52 >> >>, << << 105, 101, 120, 112, 48 >>, << 49 >> >>,
+                                                                  << << 105, 104, 48 >>, Fill(32, 1) >>, << << 105, 104, 49 >>, Fill(32, 2) >>, << << 105, 116, 97, 103, 48 >>, << 55 >> >> >>)
+ShapesS == << << "ReadRouterAddress", AddrSSU, << >> >>,
+              << "ReadRouterInfo", EncRouterInfo(Id("key", 7, 4), 7, Zeros(8), << AddrSSU, Addr >>, 0, Opts, 3), << >> >> >>
+\* structures that really verify (real keys and signatures put into the reference slots by the driver): Verify() then runs its whole path
+SignedShape(fn, base, st, typ) ==
+  LET sl == SlotsOf(fn, base, typ) IN
+  [fn |-> fn, in |-> base, base |-> base, st |-> st, typ |-> typ, prefix |-> StoreTypePrefix(fn), signed |-> TRUE, stream |-> 7,
+   idkey |-> [off |-> sl.idoff, len |-> sl.idlen], sig |-> [off |-> sl.sigoff, len |-> sl.siglen]]
+  @@ (IF sl.off THEN [offline |-> [keyoff |-> sl.keyoff, keylen |-> sl.keylen, tst |-> (IF fn = "ReadEncryptedLeaseSet" THEN RefEncryptedLeaseSet(base).tst
+                                                                                        ELSE IF fn = "ReadLeaseSet2" THEN RefLeaseSet2(base).h.tst ELSE RefMetaLeaseSet(base).h.tst),
+                                   sigoff |-> sl.osigoff, siglen |-> sl.osiglen, from |-> sl.from, to |-> sl.to]] ELSE << >>)
+SignedShapes ==
+  << SignedShape("ReadMetaLeaseSet", EncMeta(Id("key", 7, 4), T4, << 2, 88 >>, 1, EncOffline(T4, 7, 7, 4), Opts, 1, << EncMetaEntry(1, 3, T4, 1, << >>) >>, 7, 5), 7, 0),
+     SignedShape("ReadMetaLeaseSet", EncMeta(Id("key", 11, 4), T4, << 2, 88 >>, 0, << >>, Opts, 1, << EncMetaEntry(1, 3, T4, 1, << >>) >>, 11, 5), 11, 0),
+     SignedShape("ReadLeaseSet2", EncLS2(Id("key", 7, 4), T4, << 2, 88 >>, 1, EncOffline(T4, 11, 7, 4), Opts, 1, << EncEncKey(4, 32, Fill(32, 1)) >>, 1, << EncLease2(1, T4, T4) >>, 11, 5), 7, 0),
+     SignedShape("ReadEncryptedLeaseSet", EncELS(11, T4, << 2, 88 >>, 1, EncOffline(T4, 7, 11, 4), 100, Fill(100, 2), 7, 5), 11, 0),
+     SignedShape("ReadLeaseSet", EncLeaseSet(Id("key", 7, 4), 7, 2, << EncLease(1, T4, Zeros(8)), EncLease(2, T4, Zeros(8)) >>, 5), 7, 0),
+     SignedShape("ReadRouterInfo", EncRouterInfo(Id("key", 7, 4), 7, Zeros(8), << AddrSSU >>, 0, Opts, 5), 7, 0) >>
+SignedVecs == Cross2(SignedShapes, Ns, LAMBDA sh, n : [op |-> "Concurrent", n |-> n, reps |-> Reps, cls |-> "signed/n" \o ToString(n)] @@ sh)
+Vecs == SignedVecs \o Cross2(Shapes \o ShapesU \o ShapesS, Ns, LAMBDA sh, n : [op |-> "Concurrent", fn |-> sh[1], in |-> sh[2], n |-> n, reps |-> Reps, cls |-> "n" \o ToString(n)] @@ sh[3])
 VARIABLE done
 Init == done = FALSE
 Next == ~done /\ ndJsonSerialize(OutFile, Vecs) /\ PrintT(<< "GENERATED", Len(Vecs) >>) /\ done' = TRUE
